@@ -11,7 +11,7 @@ use serde_json::json;
 
 pub fn run(ctx: &Ctx) -> (Report, Meta) {
     let meta = Meta::new(
-        "random bounded problems x 6 methods x tolerances x directions x analytic / finite-difference Jacobian x {plain, t_eval, dense, events, max_steps, max_step} through solve_ivp, plus the low-level builders with a recording SolOut (dense on/off), plus zero-length runs; non-trivial = run with at least one rejected step or one Jacobian evaluation (distinct by scenario hash)",
+        "random bounded problems x 6 methods x tolerances x directions x analytic / finite-difference Jacobian x {plain, t_eval, dense, events, max_steps, max_step} through solve_ivp, plus the low-level builders with a recording SolOut (dense on/off; callback answering Continue, ModifiedSolution with an unchanged state at the initial and at later callbacks, XOut, or no callback at all; automatic or given first step), plus zero-length runs; non-trivial = run with at least one rejected step or one Jacobian evaluation (distinct by scenario hash)",
     )
     .assume("evaluations made while differencing a Jacobian are separated from stepper evaluations by delegating the default Jacobian to an inner IVP under a flag")
     .floor("runs_checked", 500)
@@ -224,8 +224,19 @@ pub fn run(ctx: &Ctx) -> (Report, Meta) {
         probe.user_jac = scn.user_jac;
         probe.budget = 600_000;
         let dense = rng.bool();
-        let lo = LowOpts { dense, ..Default::default() };
+        // the counters must be right whatever the callback answers: half of the runs answer ModifiedSolution (state
+        // unchanged) at the initial and/or at later callbacks, ask for interpolants on demand (XOut), or pass no callback
+        let variant = rng.below(8);
+        let lo = LowOpts { dense, no_callback: variant == 7, first_step: if rng.chance(0.2) && scn.method != Method::RK4 { Some(scn.dir() * (scn.xend - scn.x0).abs() / rng.range(10.0, 200.0)) } else { None }, ..Default::default() };
         let mut so = RecSolOut::new(Some(&probe));
+        match variant {
+            4 => so.script = vec![(0, Action::Scale(1.0))],
+            5 => so.script = vec![(0, Action::Scale(1.0)), (1 + rng.below(5), Action::Scale(1.0)), (7 + rng.below(9), Action::Scale(1.0))],
+            6 => so.script = vec![(rng.below(3), Action::XOut(scn.x0 + (scn.xend - scn.x0) * rng.range(0.0, 0.8)))],
+            _ => {}
+        }
+        let vname = ["plain", "plain", "plain", "plain", "modified_at_initial_callback", "modified_solution", "interpolant_on_demand", "no_callback"][variant];
+        rep.count(&format!("low_level_runs_{}", vname), 1);
         let out = run_low_guarded(scn.method, &probe, scn.x0, &scn.y0, scn.xend, &scn.rtol, &scn.atol, &lo, &mut so);
         rep.eval();
         let case = scn.describe(&prob);
@@ -234,11 +245,11 @@ pub fn run(ctx: &Ctx) -> (Report, Meta) {
                 rep.count("low_level_runs_checked", 1);
                 let log = probe.take_log();
                 let ncb = so.cbs.len().saturating_sub(1);
-                if ir.steps.accepted != ncb {
+                if variant != 7 && ir.steps.accepted != ncb {
                     rep.violate(&format!("C18/naccpt_vs_callbacks/{}/low_level", m), format!("steps.accepted = {} but {} post-initial callbacks were made", ir.steps.accepted, ncb), &case_id, case.clone());
                 }
                 if ir.evals.ode as u64 != log.n_ode {
-                    rep.violate(&format!("C18/nfev/{}/low_level_dense_{}", m, dense), format!("evals.ode = {} but {} stepper evaluations observed", ir.evals.ode, log.n_ode), &case_id, case.clone());
+                    rep.violate(&format!("C18/nfev/{}/low_level_dense_{}_{}", m, dense, vname), format!("evals.ode = {} but {} stepper evaluations observed (callback behaviour: {}, first_step {:?})", ir.evals.ode, log.n_ode, vname, lo.first_step), &case_id, case.clone());
                 }
                 if ir.evals.jac as u64 != log.n_jac {
                     rep.violate(&format!("C18/njev/{}/low_level", m), format!("evals.jac = {} but {} jac calls observed", ir.evals.jac, log.n_jac), &case_id, case.clone());
